@@ -81,7 +81,22 @@ fn run_f64(tape: &[u32], st: &mut Stats, max_size: usize, nondiff_pct: u32) -> C
     let mut t = Tape::new(tape);
     let cfg = CalcCfg { max_size, nvars: 1 + t.choose(3), rational_only: false, nondiff_pct, unary_pct: 30 };
     let size = 1 + t.choose(max_size);
-    let tree = gen_ct(&mut t, &cfg, size);
+    let mut tree = gen_ct(&mut t, &cfg, size);
+    // one case in twelve: the tree sits inside 6-13 nested affine wrappers 0.5+2.0*( ... ) / (...)*0.5-1.0,
+    // i.e. at parenthesis depth >= 10 for the longer ones (depth-dependent encodings of priorities)
+    if t.chance(8) {
+        let k = 6 + t.choose(8);
+        for layer in 0..k {
+            let num = |s: &str| Box::new(CT::Num(s.to_string()));
+            tree = if layer % 2 == 0 {
+                CT::Bin("+", num("0.5"), Box::new(CT::Bin("*", num("2.0"), Box::new(tree))))
+            } else {
+                CT::Bin("-", Box::new(CT::Bin("*", Box::new(tree), num("0.5"))), num("1.0"))
+            };
+        }
+        st.class_if(k >= 10, "tree nested >= 10 parentheses deep");
+        st.class("tree inside 6-13 affine wrappers");
+    }
     let (names, idxs) = sorted_vars(&tree);
     if names.is_empty() {
         st.excluded("expression without variables");
@@ -204,6 +219,90 @@ fn derivative_f64_large(tape: &[u32], st: &mut Stats) -> CaseResult {
 }
 fn nondifferentiable(tape: &[u32], st: &mut Stats) -> CaseResult {
     run_f64(tape, st, 7, 25)
+}
+
+// ---------------------------------------------------------------------------------------------
+// scaled monomials: derivatives known in closed form, compared *relatively* (1e-11), with constant
+// factors from 1e-50 to 1e17 - the absolute floor of the tolerances above cannot see a wrong
+// derivative of magnitude 1e-17
+
+pub const SCALES: [&str; 6] = [
+    "0.00000000000000001",
+    "0.000000000000000000003",
+    "100000000000000000.0",
+    "2.5",
+    "0.00000000000000000000000000000000000000000000000001",
+    "0.0000000000000002220446049250313",
+];
+/// (template over x, y with {c}; first derivative d/dx; second derivative d2/dx2) as closures of (c, x, y)
+pub type Form = (&'static str, fn(f64, f64, f64) -> f64, fn(f64, f64, f64) -> f64);
+pub const FORMS: [Form; 10] = [
+    ("{c}*x*x", |c, x, _| 2.0 * c * x, |c, _, _| 2.0 * c),
+    ("x/{c}", |c, _, _| 1.0 / c, |_, _, _| 0.0),
+    ("{c}*x^3", |c, x, _| 3.0 * c * x * x, |c, x, _| 6.0 * c * x),
+    ("x*{c}*y", |c, _, y| c * y, |_, _, _| 0.0),
+    ("{c}/x", |c, x, _| -c / (x * x), |c, x, _| 2.0 * c / (x * x * x)),
+    ("sin({c}*x)", |c, x, _| c * (c * x).cos(), |c, x, _| -c * c * (c * x).sin()),
+    ("({c}+x)*({c}+x)", |c, x, _| 2.0 * (c + x), |_, _, _| 2.0),
+    ("x^2*{c}+x*{c}", |c, x, _| c * (2.0 * x + 1.0), |c, _, _| 2.0 * c),
+    ("exp(x)*{c}", |c, x, _| c * x.exp(), |c, x, _| c * x.exp()),
+    ("y*{c}-x*{c}*y", |c, _, y| -c * y, |_, _, _| 0.0),
+];
+pub const MONO_POINTS: [(f64, f64); 3] = [(0.3, 1.3), (1.7, -0.4), (-2.2, 2.0)];
+pub fn rel_close(a: f64, b: f64) -> bool {
+    a == b || (a - b).abs() <= 1e-11 * a.abs().max(b.abs())
+}
+
+fn n_mono(_: Tier) -> u64 {
+    (FORMS.len() * SCALES.len()) as u64
+}
+fn scaled_monomials(i: u64, st: &mut Stats) -> CaseResult {
+    let (form, lit) = (&FORMS[i as usize / SCALES.len()], SCALES[i as usize % SCALES.len()]);
+    let c: f64 = lit.parse().unwrap();
+    let text = form.0.replace("{c}", lit);
+    st.nontrivial(&text);
+    if st.want_sample() {
+        st.sample(json!({"text": text, "constant": c}));
+    }
+    let describe = || json!({"text": text, "constant": c});
+    type R = Result<Vec<(&'static str, Vec<f64>, Vec<f64>)>, String>;
+    let res = guard(|| -> R {
+        let mut out = vec![];
+        let has_y = text.contains('y');
+        let pts: Vec<Vec<f64>> = MONO_POINTS.iter().map(|(x, y)| if has_y { vec![*x, *y] } else { vec![*x] }).collect();
+        let ev = |e: &dyn Fn(&[f64]) -> exmex::ExResult<f64>| -> Result<Vec<f64>, String> { pts.iter().map(|p| ex_msg(e(p))).collect() };
+        let f = ex_msg(exmex::FlatEx::<f64>::parse(&text))?;
+        let f1 = ex_msg(f.clone().partial(0))?;
+        let f2 = ex_msg(f1.clone().partial(0))?;
+        out.push(("FlatEx::partial, .partial", ev(&|p| f1.eval(p))?, ev(&|p| f2.eval(p))?));
+        let w = ex_msg(exmex::FlatEx::<f64>::parse_wo_compile(&text))?;
+        let w1 = ex_msg(w.partial(0))?;
+        let w2 = ex_msg(f.clone().partial_nth(0, 2))?;
+        out.push(("parse_wo_compile.partial / FlatEx::partial_nth(0,2)", ev(&|p| w1.eval(p))?, ev(&|p| w2.eval(p))?));
+        let d = ex_msg(exmex::DeepEx::<f64>::parse(&text))?;
+        let d1 = ex_msg(d.clone().partial(0))?;
+        let d2 = ex_msg(d.partial_iter([0usize, 0].into_iter()))?;
+        out.push(("DeepEx::partial / partial_iter([0,0])", ev(&|p| d1.eval(p))?, ev(&|p| d2.eval(p))?));
+        Ok(out)
+    });
+    match res {
+        Err(p) => Err(fail("C05/scaled/panic", format!("differentiating `{text}` panics: {p}"), describe())),
+        Ok(Err(e)) => Err(fail("C05/scaled/error", format!("`{text}` is differentiable but fails: {e}"), describe())),
+        Ok(Ok(list)) => {
+            for (route, firsts, seconds) in list {
+                for (k, (x, y)) in MONO_POINTS.iter().enumerate() {
+                    let (r1, r2) = ((form.1)(c, *x, *y), (form.2)(c, *x, *y));
+                    if !rel_close(firsts[k], r1) {
+                        return Err(fail("C05/scaled/first-derivative", format!("{route}: d/dx of `{text}` at x={x}, y={y}: library {}, closed form {r1}", firsts[k]), describe()));
+                    }
+                    if !rel_close(seconds[k], r2) {
+                        return Err(fail("C05/scaled/second-derivative", format!("{route}: d2/dx2 of `{text}` at x={x}, y={y}: library {}, closed form {r2}", seconds[k]), describe()));
+                    }
+                }
+            }
+            Ok(())
+        }
+    }
 }
 
 // ---------------------------------------------------------------------------------------------
@@ -331,6 +430,11 @@ pub fn def() -> PropDef {
                 name: "derivative_exact",
                 rule: "tape -> tree over + - * / and integer powers (incl. 0, 1, negative) x two indices x up to 4 rational points; FlatEx/DeepEx over exact rationals; equality without tolerance; non-trivial = product, quotient or power present",
                 kind: Kind::Tape { len: 220, quick: 15_000, thorough: 800_000, f: derivative_exact },
+            },
+            SubCheck {
+                name: "scaled_monomials",
+                rule: "10 closed-form families (c*x*x, x/c, c*x^3, x*c*y, c/x, sin(c*x), (c+x)^2, ...) x 6 constants from 1e-50 to 1e17 (spelled without exponent) x 3 points; first and second derivative through FlatEx, unfolded FlatEx, partial_nth, DeepEx, partial_iter; relative comparison 1e-11 with the closed form",
+                kind: Kind::Indexed { n: n_mono, f: scaled_monomials, exhaustive: true },
             },
             SubCheck {
                 name: "nondifferentiable",
